@@ -143,6 +143,10 @@ def h_grid_coordinates(ctx):
     north = ctx.reals("gn", sh[0])
     if cfg["twod"]:
         ee, nn = np.meshgrid(east, north)
+        if cfg.get("mem"):
+            from symx.harness import relayout
+
+            ee, nn = relayout(ee, cfg["mem"]), relayout(nn, cfg["mem"])
         coords = (ee, nn)
     else:
         coords = (east, north)
@@ -297,7 +301,7 @@ def _cfg_grid(tier, seed):
 
 HARNESSES = [
     Harness("grid", h_grid, _cfg_grid, bounds="symbolic region (given or the fitted data's bounding box), shapes up to 3x3 incl. non-square, spacing with <= 2.5 intervals per axis, both adjust modes and registrations, 0-2 extra coordinates, 1-3 components, custom dims and names, affine projections (separable and non-separable: rotation, shear)"),
-    Harness("grid_explicit_coordinates", h_grid_coordinates, lambda tier, seed: [{"shape": sh, "twod": t, "extra": x} for sh in ([(2, 3)] if tier == "quick" else [(1, 3), (3, 1), (2, 3), (3, 2)]) for t in (False, True) for x in ((0, 1) if t else (0,))], bounds="symbolic non-uniform coordinate vectors as 1-D arrays or 2-D meshgrids (+ a symbolic 2-D extra coordinate), shapes up to 3x2"),
+    Harness("grid_explicit_coordinates", h_grid_coordinates, lambda tier, seed: [{"shape": sh, "twod": t, "extra": x} for sh in ([(2, 3)] if tier == "quick" else [(1, 3), (3, 1), (2, 3), (3, 2)]) for t in (False, True) for x in ((0, 1) if t else (0,))] + [{"shape": (2, 3), "twod": True, "extra": 1, "mem": "F"}], bounds="symbolic non-uniform coordinate vectors as 1-D arrays or 2-D meshgrids (+ a symbolic 2-D extra coordinate), shapes up to 3x2"),
     Harness(
         "profile",
         h_profile,
